@@ -152,6 +152,34 @@ def agreement_arm(res, rd, tier, seed):
         res.report_fails(v["fails"], os.path.join(vlib.OUT, "viol"))
 
 
+def laws_arm(res, rd, tier, seed, which, nb_quick=32, per_quick=4000, nb_thorough=480, per_thorough=10000):
+    """oracle-free volume beyond the exhaustive bound for single-automaton operations (driver op lawsagree): consequences of the
+    contract are checked with the library's own inclusion on driver-generated automata with 3-9 states; suspicious inputs come
+    back as ordinary events and TLC judges them with the real contract"""
+    nb, per = (nb_thorough, per_thorough) if tier == "thorough" else (nb_quick, per_quick)
+    batches = [{"id": ["lawsagree", which, i], "op": "lawsagree", "which": which, "seed": seed * 9973 + i, "count": per, "tmo": 900000} for i in range(nb)]
+    cf = os.path.join(rd, "laws.cases.ndjson")
+    vlib.write_ndjson(cf, batches)
+    events, n, nonempty = [], 0, 0
+    for sh in vlib.drive(cf, os.path.join(rd, "laws.ev"), timeout_ms=900000):
+        for ev in vlib.read_ndjson(sh):
+            if ev.get("outcome") != "ok":
+                events.append(dict(ev, A={"fin": [], "rules": []}))
+                continue
+            n += ev["res"]["count"]
+            nonempty += ev["res"]["nonempty"]
+            events += ev["res"]["suspicious"]
+    res.extra["laws_arm_automata"] = n
+    res.extra["laws_arm_nonempty"] = nonempty
+    res.extra["laws_arm_suspicious"] = len(events)
+    if events:
+        ef = os.path.join(rd, "laws.suspicious.0.ndjson")
+        vlib.write_ndjson(ef, events)
+        v = vlib.tlc_validate("TraceTA.tla", [ef])
+        res.add_validation(v)
+        res.report_fails(v["fails"], os.path.join(vlib.OUT, "viol"))
+
+
 def model_with_mutants(res, module, cfg, mutants, prefix, timeout=3000):
     m = vlib.tlc_model(module, cfg, coverage=True, timeout=timeout, heap="16g")
     res.add_model(m)
@@ -302,6 +330,7 @@ def check_C03(tier, seed, res, replay=None):
     res.count_cases(cases, nontrivial_trim)
     res.add_samples([c for c in cases if nontrivial_trim(c)][:3])
     run_events(res, rd, "c03", cases)
+    laws_arm(res, rd, tier, seed, "trim")
 
 
 # ---------------------------------------------------------------------------------------- C04
@@ -339,6 +368,7 @@ def check_C04(tier, seed, res, replay=None):
     res.count_cases(cases, nt)
     res.add_samples([c for c in cases if nt(c)][:3])
     run_events(res, rd, "c04", cases)
+    laws_arm(res, rd, tier, seed, "sim", per_quick=2000, per_thorough=5000)
 
 
 # ---------------------------------------------------------------------------------------- C05
@@ -354,6 +384,7 @@ def check_C05(tier, seed, res, replay=None):
     res.count_cases(cases, nt)
     res.add_samples([c for c in cases if nt(c)][:3])
     run_events(res, rd, "c05", cases)
+    laws_arm(res, rd, tier, seed, "reduce")
 
 
 # ---------------------------------------------------------------------------------------- C06
@@ -380,6 +411,7 @@ def check_C06(tier, seed, res, replay=None):
     res.count_cases(cases, nt)
     res.add_samples([c for c in cases if nt(c)][:3])
     run_events(res, rd, "c06", cases, timeout_ms=10000)
+    laws_arm(res, rd, tier, seed, "compl", per_quick=3000)
 
 
 # ---------------------------------------------------------------------------------------- C14
@@ -452,3 +484,4 @@ def check_C15(tier, seed, res, replay=None):
     res.count_cases(cases, nt)
     res.add_samples([c for c in cases if nt(c)][:3])
     run_events(res, rd, "c15", cases)
+    laws_arm(res, rd, tier, seed, "witness")
